@@ -129,6 +129,25 @@ class AgentExecutingComponent(rpu.AgentComponent):
 
     # --------------------------------------------------------------------------
     #
+    def is_canceled(self, task):
+        '''
+        A task which is found canceled before it was launched (the component
+        drops it on intake) holds slots which nobody else will free: ask the
+        scheduler to release them.  Once a process exists, `cancel_task` or
+        the watcher release the slots.
+        '''
+
+        ret = super().is_canceled(task)
+
+        if ret is True and task.get('proc') is None:
+            self._prof.prof('unschedule_start', uid=task['uid'])
+            self.publish(rpc.AGENT_UNSCHEDULE_PUBSUB, task)
+
+        return ret
+
+
+    # --------------------------------------------------------------------------
+    #
     def control_cb(self, topic, msg):
 
         self._log.info('command_cb [%s]: %s', topic, msg)
